@@ -37,6 +37,11 @@ type iterator struct {
 	closer io.Closer
 
 	iteratorOptions IteratorOptions
+
+	// startedSingle is true when the iterator had just one cursor
+	// before any entry was consumed, so that no other segment (or the
+	// lower level) holds an entry in the iteration range.
+	startedSingle bool
 }
 
 // A cursor rerpresents a logical entry position inside a segment in a
@@ -189,6 +194,8 @@ func (ss *segmentStack) startIterator(
 
 	// ----------------------------------------------
 	// Heap-ify the cursors.
+
+	iter.startedSingle = len(iter.cursors) == 1
 
 	heap.Init(iter)
 
@@ -453,7 +460,11 @@ func (iter *iterator) Pop() interface{} {
 // when there's only a single segment, then the heap can be avoided by
 // using a simpler, faster iteratorSingle implementation.
 func (iter *iterator) optimize() (Iterator, error) {
-	if len(iter.cursors) != 1 {
+	// A single remaining cursor is not enough: cursors of segments whose
+	// entries (for example deletions) were consumed while positioning on
+	// the first entry are gone by now, but a backwards SeekTo() would
+	// need them again to keep shadowing older entries.
+	if len(iter.cursors) != 1 || !iter.startedSingle {
 		return iter, nil
 	}
 
